@@ -41,7 +41,7 @@ impl OutlineSink for Rec {
     }
 }
 
-fn run(input: &str) -> String {
+pub fn run(input: &str) -> String {
     let parts: Vec<&str> = input.split('|').collect();
     if parts.len() != 2 && parts.len() != 3 {
         return "badinput".to_string();
@@ -456,7 +456,7 @@ fn composite_glyph(rng: &mut Rng, targets: &[u16], scales: bool, exotic: bool) -
     g
 }
 
-fn gen(rng: &mut Rng) -> String {
+pub fn gen(rng: &mut Rng) -> String {
     let kind = rng.below(20);
     let mut glyphs: Vec<Vec<u8>> = vec![];
     let gid: u16;
